@@ -81,6 +81,15 @@ type scenario struct {
 	// finish after it: "local" = 40 Topic.Publish callers inside a gated validator, "remote" = 40 received
 	// messages inside a gated asynchronous validator plus both validation workers inside a gated inline one.
 	Backlog string `json:"backlog"`
+	// BacklogPre: the backlog's gates open while the loop is parked BEFORE the cancellation, so that callers,
+	// validation goroutines and workers sit in sendMsgBlocking at the instant of Cancel. DefVal: a default
+	// validator is configured, so received messages take the multi-validator path (validateTopic).
+	BacklogPre bool `json:"backlogpre"`
+	DefVal     bool `json:"defval"`
+	// Fam: a fixed scenario family that brings one library goroutine to one of its blocking points at the
+	// instant of the cancellation (see playFam): retry-sleep retry-hand flood newpeer backoff early-cancel
+	// early-park direct
+	Fam string `json:"fam"`
 }
 
 // ---------------------------------------------------------------------------
@@ -179,7 +188,10 @@ type run struct {
 	out *outFile
 
 	net    *hnet.Net
+	nh     *nutHost
 	h      *hnet.WrapHost
+	extra  []*hnet.FakePeer
+	atCancel []string
 	p3     *hnet.FakePeer
 	ps     *pubsub.PubSub
 	rec    *rec.Recorder
@@ -505,11 +517,35 @@ func returned(c *call) bool {
 
 // ---------------------------------------------------------------------------
 
+// nutHost is the host handed to the node under test: hnet.WrapHost (gated writes, held stream opens) plus
+// Connect calls to chosen peers that hang until the caller's context ends (an unreachable direct peer).
+type nutHost struct {
+	*hnet.WrapHost
+	mu   sync.Mutex
+	hang map[peer.ID]bool
+}
+
+func (h *nutHost) Connect(ctx context.Context, pi peer.AddrInfo) error {
+	h.mu.Lock()
+	hang := h.hang[pi.ID]
+	h.mu.Unlock()
+	if hang {
+		<-ctx.Done()
+		return ctx.Err()
+	}
+	return h.WrapHost.Connect(ctx, pi)
+}
+
 func (r *run) build() {
 	s := r.s
-	r.net = hnet.New(r.t, 5, false)
+	nHosts := 8
+	if s.Fam == "flood" {
+		nHosts = 30
+	}
+	r.net = hnet.New(r.t, nHosts, false)
 	h := hnet.Wrap(r.net.Take())
 	r.h = h
+	r.nh = &nutHost{WrapHost: h, hang: map[peer.ID]bool{}}
 	names := hnet.NewNames()
 	names.AddPeer(h.ID(), "self")
 	r.rec = rec.New(names, h.ID())
@@ -522,6 +558,17 @@ func (r *run) build() {
 	}
 	r.ctx, r.cancel = context.WithCancel(context.Background())
 	opts := []pubsub.Option{pubsub.WithRawTracer(r.rec), pubsub.WithValidateWorkers(2)}
+	if s.DefVal {
+		opts = append(opts, pubsub.WithDefaultValidator(func(context.Context, peer.ID, *pubsub.Message) bool { return true }))
+	}
+	if strings.HasPrefix(s.Fam, "retry") {
+		opts = append(opts, pubsub.WithPeerOutboundQueueSize(2))
+	}
+	early := strings.HasPrefix(s.Fam, "early")
+	pubsub.DiscoveryPollInitialDelay = 0
+	if early {
+		pubsub.DiscoveryPollInitialDelay = 700 * time.Millisecond
+	}
 	if s.Disc {
 		opts = append(opts, pubsub.WithDiscovery(fakeDiscovery{}))
 	}
@@ -535,9 +582,9 @@ func (r *run) build() {
 	var err error
 	switch s.Router {
 	case "floodsub":
-		r.ps, err = pubsub.NewFloodSub(r.ctx, h, opts...)
+		r.ps, err = pubsub.NewFloodSub(r.ctx, r.nh, opts...)
 	case "randomsub":
-		r.ps, err = pubsub.NewRandomSub(r.ctx, h, 10, opts...)
+		r.ps, err = pubsub.NewRandomSub(r.ctx, r.nh, 10, opts...)
 	default:
 		r.pm = &partialmessages.PartialMessagesExtension[struct{}]{
 			Logger:        slog.Default(),
@@ -550,9 +597,27 @@ func (r *run) build() {
 			Topics: map[string]*pubsub.TopicScoreParams{},
 		}
 		th := &pubsub.PeerScoreThresholds{GossipThreshold: -2, PublishThreshold: -4, GraylistThreshold: -6, AcceptPXThreshold: 2, OpportunisticGraftThreshold: 1}
-		opts = append(opts, pubsub.WithGossipSubParams(world.SmallParams()), pubsub.WithPeerScore(sp, th),
+		gp := world.SmallParams()
+		var direct []peer.AddrInfo
+		if early {
+			gp.HeartbeatInitialDelay = 700 * time.Millisecond
+			gp.DirectConnectInitialDelay = 700 * time.Millisecond
+			direct = append(direct, r.hangingPeer(nHosts-1))
+		}
+		if s.Fam == "direct" {
+			// one connector, one pending slot, three direct peers nobody can reach
+			gp.Connectors, gp.MaxPendingConnections = 1, 1
+			gp.DirectConnectInitialDelay, gp.DirectConnectTicks = 300*time.Millisecond, 1
+			for i := 1; i <= 3; i++ {
+				direct = append(direct, r.hangingPeer(nHosts-i))
+			}
+		}
+		if len(direct) > 0 {
+			opts = append(opts, pubsub.WithDirectPeers(direct))
+		}
+		opts = append(opts, pubsub.WithGossipSubParams(gp), pubsub.WithPeerScore(sp, th),
 			pubsub.WithPeerGater(pubsub.DefaultPeerGaterParams()), pubsub.WithPartialMessagesExtension(r.pm))
-		r.ps, err = pubsub.NewGossipSub(r.ctx, h, opts...)
+		r.ps, err = pubsub.NewGossipSub(r.ctx, r.nh, opts...)
 	}
 	if err != nil {
 		r.t.Fatalf("c14: cannot build the node: %v", err)
@@ -561,6 +626,10 @@ func (r *run) build() {
 	r.p1 = hnet.NewFakePeer(r.net.Take(), "p1", proto, h.Host)
 	r.p2 = hnet.NewFakePeer(r.net.Take(), "p2", proto, h.Host)
 	r.p3 = hnet.NewFakePeer(r.net.Take(), "p3", proto, h.Host)
+	nExtra := map[string]int{"flood": 22, "newpeer": 2}[s.Fam]
+	for i := 0; i < nExtra; i++ {
+		r.extra = append(r.extra, hnet.NewFakePeer(r.net.Take(), fmt.Sprintf("x%d", i+1), proto, h.Host))
+	}
 	names.AddPeer(r.p1.ID(), "p1")
 	names.AddPeer(r.p2.ID(), "p2")
 	if err := r.p1.DialNUT(); err != nil {
@@ -579,6 +648,15 @@ func (r *run) build() {
 	hnet.Settle(20 * time.Millisecond)
 }
 
+// hangingPeer registers host i of the simulated network as a peer whose Connect never completes.
+func (r *run) hangingPeer(i int) peer.AddrInfo {
+	h := r.net.Hosts[i]
+	r.nh.mu.Lock()
+	r.nh.hang[h.ID()] = true
+	r.nh.mu.Unlock()
+	return peer.AddrInfo{ID: h.ID(), Addrs: h.Addrs()}
+}
+
 // ---------------------------------------------------------------------------
 // goroutine inventory
 
@@ -586,6 +664,7 @@ type gor struct {
 	id    int
 	state string
 	funcs []string // innermost first
+	locs  []string // "file:line" of each frame
 	root  string
 }
 
@@ -615,6 +694,13 @@ func allGoroutines() []gor {
 		g.id, _ = strconv.Atoi(m[1])
 		for _, ln := range lines[1:] {
 			if strings.HasPrefix(ln, "\t") {
+				if len(g.locs) < len(g.funcs) {
+					loc := strings.TrimSpace(ln)
+					if i := strings.Index(loc, " +0x"); i > 0 {
+						loc = loc[:i]
+					}
+					g.locs = append(g.locs, loc)
+				}
 				continue
 			}
 			if strings.HasPrefix(ln, "created by ") {
@@ -677,6 +763,88 @@ func libraryGoroutines(exclude map[int]bool) []string {
 	}
 	sort.Strings(left)
 	return left
+}
+
+// ---------------------------------------------------------------------------
+// blocking points: where every library goroutine stands right now, as
+// "root function | innermost library function | statement". The statement is read from the source line of
+// the innermost library frame (a select is rendered with the head of each of its cases), so the name
+// survives line shifts but changes when an arm is dropped.
+
+var srcCache = map[string][]string{}
+
+func srcLines(path string) []string {
+	if l, ok := srcCache[path]; ok {
+		return l
+	}
+	b, err := os.ReadFile(path)
+	var l []string
+	if err == nil {
+		l = strings.Split(string(b), "\n")
+	}
+	srcCache[path] = l
+	return l
+}
+
+var spaces = regexp.MustCompile(`\s+`)
+
+func statementAt(loc string) string {
+	i := strings.LastIndex(loc, ":")
+	if i < 0 {
+		return "?"
+	}
+	n, err := strconv.Atoi(loc[i+1:])
+	lines := srcLines(loc[:i])
+	if err != nil || n < 1 || n > len(lines) {
+		return "?"
+	}
+	raw := lines[n-1]
+	line := strings.TrimSpace(raw)
+	if !strings.HasPrefix(line, "select {") {
+		return spaces.ReplaceAllString(line, " ")
+	}
+	indent := raw[:len(raw)-len(strings.TrimLeft(raw, "\t"))]
+	var cases []string
+	for _, l := range lines[n:] {
+		if strings.TrimRight(l, " \t") == indent+"}" {
+			break
+		}
+		if strings.HasPrefix(l, indent+"case ") || strings.HasPrefix(l, indent+"default:") {
+			c := strings.TrimSpace(l)
+			c = strings.TrimSuffix(strings.TrimSuffix(c, "{"), ":")
+			cases = append(cases, spaces.ReplaceAllString(strings.TrimSpace(c), " "))
+		}
+	}
+	return "select{" + strings.Join(cases, "; ") + "}"
+}
+
+func pointsNow(exclude map[int]bool) []string {
+	seen := map[string]bool{}
+	for _, g := range allGoroutines() {
+		if exclude[g.id] || strings.HasPrefix(g.root, "verifharness/") || strings.HasPrefix(g.root, "testing.") {
+			continue
+		}
+		for i, fn := range g.funcs {
+			if strings.HasPrefix(fn, libPrefix) && !strings.HasPrefix(fn, libPrefix+"/pb.") {
+				stmt := "?"
+				if i < len(g.locs) {
+					stmt = statementAt(g.locs[i])
+				}
+				root := g.root
+				if !strings.HasPrefix(root, libPrefix) {
+					root = "(host)"
+				}
+				seen[shortFn(root)+" | "+shortFn(fn)+" | "+stmt] = true
+				break
+			}
+		}
+	}
+	out := make([]string, 0, len(seen))
+	for k := range seen {
+		out = append(out, k)
+	}
+	sort.Strings(out)
+	return out
 }
 
 // ---------------------------------------------------------------------------
@@ -921,6 +1089,15 @@ func (r *run) play() {
 	}
 	r.settle()
 	blAsync, blWorkers := r.inValidator("bl"), r.inValidator("bw")
+	if s.Backlog != "" && s.BacklogPre && s.Parker != 0 {
+		// the backlog finishes validating while the loop is parked: 32 messages fit sendMsg, the other
+		// callers / validation goroutines / workers sit in sendMsgBlocking at the instant of Cancel
+		r.openGate("bl")
+		r.settle()
+		r.openGate("bw")
+		r.settle()
+	}
+	r.atCancel = pointsNow(staleGoroutines)
 	r.cancelAt = hnet.NowMs()
 	r.cancel()
 	r.stopped = true
@@ -1000,6 +1177,190 @@ func (r *run) play() {
 		}()
 	}
 
+	r.finish(blAsync, blWorkers)
+}
+
+// parkOnRecv parks the event loop inside the RawTracer callback for the next RPC received from p1.
+func (r *run) parkOnRecv() {
+	r.park = &parkPoint{entered: make(chan struct{}), release: make(chan struct{})}
+	r.park.match = func(ev rec.M) bool {
+		k, _ := ev["k"].(string)
+		p, _ := ev["p"].(string)
+		return k == "Recv" && p == "p1"
+	}
+	r.park.armed.Store(true)
+	r.p1.Send(hnet.SubRPC("parker", true))
+	r.settle()
+	select {
+	case <-r.park.entered:
+	default:
+		r.note("event loop was not parked")
+	}
+}
+
+// playFam: fixed scenario families; each brings some library goroutines to one of their blocking points at
+// the instant of the cancellation (recorded in "atcancel"), the inventory after the shutdown is the judge.
+func (r *run) playFam() {
+	s := r.s
+	r.build()
+	first := r.newCall("PubSub.GetTopics", "SelSend_Recv", "before")
+	switch s.Fam {
+	case "early-cancel":
+		// ~45 ms after construction: heartbeatTimer, pollTimer and the direct-connect goroutine are still
+		// in their initial delay (700 ms)
+		r.start(first)
+		r.settle()
+	case "early-park":
+		// the loop is parked when the initial delays end: heartbeatTimer and pollTimer sit at their FIRST
+		// hand-off to the loop
+		r.start(first)
+		r.settle()
+		r.parkOnRecv()
+		hnet.AdvanceTo(900)
+	case "retry-sleep", "retry-hand":
+		// p2's writes stall, its outbound queue (2 slots) fills up with announcements; the next
+		// announcement is dropped and retried by a goroutine that first sleeps 1..1000 ms
+		hnet.AdvanceTo(1500)
+		r.start(first)
+		r.settle()
+		r.h.GateWrites(r.p2.ID())
+		r.rec.Take()
+		dropped := false
+		for i := 0; i < 8 && !dropped; i++ {
+			c := r.newCall("PubSub.Subscribe", "SelSend_Recv", "before")
+			r.start(c)
+			<-c.done // the announcement was made while the request was handled; no virtual time has passed
+			for _, ev := range r.rec.Take() {
+				if k, _ := ev["k"].(string); k == "Drop" {
+					if p, _ := ev["p"].(string); p == "p2" {
+						dropped = true
+					}
+				}
+			}
+			if !dropped {
+				r.settle()
+			}
+		}
+		if !dropped {
+			r.note("no announcement was dropped")
+		}
+		if s.Fam == "retry-sleep" {
+			time.Sleep(500 * time.Microsecond) // the retry goroutine sleeps at least 1 ms
+			synctest.Wait()
+		} else {
+			r.parkOnRecv()
+			time.Sleep(1100 * time.Millisecond) // whatever it slept, the retry now waits for the parked loop
+			synctest.Wait()
+		}
+	case "flood":
+		// the loop is parked, 20 peers send 3 RPCs each: the 32 slots of `incoming` fill up and every stream
+		// reader is parked handing over its next RPC; then a silent peer closes its stream (ClosedStream
+		// notification), a parked peer opens a second stream (the new handler waits for the old one) and a
+		// new peer opens its first stream (NewStream notification)
+		hnet.AdvanceTo(1500)
+		r.start(first)
+		r.settle()
+		for _, f := range r.extra[:21] {
+			if err := f.DialNUT(); err != nil {
+				r.note("flood: connect %s: %v", f.Name, err)
+			}
+		}
+		hnet.Settle(20 * time.Millisecond)
+		for _, f := range r.extra[:21] {
+			if err := f.OpenOut(); err != nil {
+				r.note("flood: stream %s: %v", f.Name, err)
+			}
+			f.Send(hnet.SubRPC("shared", true)) // streams are negotiated lazily: the first frame starts the reader
+		}
+		hnet.Settle(20 * time.Millisecond)
+		r.parkOnRecv()
+		for i, f := range r.extra[:20] {
+			for j := 0; j < 3; j++ {
+				f.Send(hnet.SubRPC(fmt.Sprintf("f%d-%d", i, j), true))
+			}
+		}
+		r.settle()
+		r.extra[20].CloseOut()
+		if err := r.extra[0].OpenOut(); err != nil {
+			r.note("flood: second stream: %v", err)
+		}
+		r.extra[0].Send(hnet.SubRPC("again", true))
+		if err := r.extra[21].DialNUT(); err == nil {
+			hnet.Settle(20 * time.Millisecond)
+			if err := r.extra[21].OpenOut(); err != nil {
+				r.note("flood: late stream: %v", err)
+			}
+			r.extra[21].Send(hnet.SubRPC("late", true))
+		} else {
+			r.note("flood: late connect: %v", err)
+		}
+		hnet.Settle(20 * time.Millisecond)
+	case "newpeer":
+		// three peers connect with their outbound stream held open; the loop is parked; then one stream
+		// opens (hand-off of the stream + writer waiting for its hello), one fails (hand-off of the error),
+		// one stays in NewStream
+		hnet.AdvanceTo(1500)
+		r.start(first)
+		r.settle()
+		ps := []*hnet.FakePeer{r.p3, r.extra[0], r.extra[1]}
+		for _, f := range ps {
+			r.h.HoldOpen(f.ID())
+		}
+		r.h.FailOpen(ps[1].ID(), true)
+		for _, f := range ps {
+			if err := f.DialNUT(); err != nil {
+				r.note("newpeer: connect %s: %v", f.Name, err)
+			}
+		}
+		hnet.Settle(20 * time.Millisecond)
+		r.parkOnRecv()
+		r.h.ReleaseOpen(ps[0].ID())
+		r.h.ReleaseOpen(ps[1].ID())
+		r.settle()
+	case "backoff":
+		// p2 resets the stream we opened to it, twice: the second writer is respawned after a back-off
+		// (100 ms) during which the context is cancelled
+		hnet.AdvanceTo(1500)
+		r.start(first)
+		r.settle()
+		r.p2.ResetIn()
+		hnet.Settle(20 * time.Millisecond)
+		r.p2.ResetIn()
+		r.settle()
+	case "direct":
+		// three unreachable direct peers, one connector, one pending slot: the connector hangs in Connect,
+		// the goroutines that queue the direct peers (after the initial delay, and at every heartbeat)
+		// hang in their send on the connect channel
+		r.start(first)
+		r.settle()
+		hnet.AdvanceTo(500)
+	default:
+		r.t.Fatalf("c14: unknown family %q", s.Fam)
+	}
+	if os.Getenv("C14_DEBUG") != "" {
+		for _, g := range allGoroutines() {
+			for i, fn := range g.funcs {
+				if strings.Contains(fn, "handleNewStream") {
+					fmt.Println("DBG", g.id, g.state, fn, g.locs[i], "top:", g.funcs[0])
+				}
+			}
+		}
+	}
+	r.atCancel = pointsNow(staleGoroutines)
+	r.cancelAt = hnet.NowMs()
+	r.cancel()
+	r.stopped = true
+	r.settle()
+	if r.park != nil {
+		close(r.park.release)
+	}
+	r.settle()
+	r.finish(0, 0)
+}
+
+// finish: watchdog, call lines, closing of the hosts, goroutine inventory, exit line.
+func (r *run) finish(blAsync, blWorkers int) {
+	s := r.s
 	// ---- watchdog: 30 s of virtual time
 	time.Sleep(30 * time.Second)
 	synctest.Wait()
@@ -1015,12 +1376,18 @@ func (r *run) play() {
 		r.out.emit(line)
 	}
 
-	// ---- the host closes its streams; every library goroutine must be gone
+	// ---- the host closes its streams (a write stalled by the harness fails like any other); every
+	// library goroutine must be gone
+	for _, f := range append([]*hnet.FakePeer{r.p1, r.p2, r.p3}, r.extra...) {
+		r.h.UngateWrites(f.ID())
+		r.h.ReleaseOpen(f.ID())
+	}
 	r.net.Close()
 	hnet.Settle(2 * time.Second)
 	left := libraryGoroutines(staleGoroutines)
 	r.out.emit(vh.M{"e": "exit", "scn": s.ID, "left": strings.Join(left, ","), "n": len(left), "notes": strings.Join(r.notes, "; "),
-		"backlog": s.Backlog, "bl_n": blAsync, "bl_workers": blWorkers, "bl_parked": s.Backlog != "" && s.Parker != 0})
+		"backlog": s.Backlog, "bl_n": blAsync, "bl_workers": blWorkers, "bl_parked": s.Backlog != "" && s.Parker != 0, "bl_pre": s.Backlog != "" && s.BacklogPre && s.Parker != 0,
+		"fam": s.Fam, "atcancel": r.atCancel})
 }
 
 // goroutines left behind by earlier scenarios (they stay blocked in their dead bubble)
@@ -1043,7 +1410,12 @@ func runScenario(t *testing.T, out *outFile, s scenario) {
 			r := &run{t: t, s: s, out: out, topics: map[int]*pubsub.Topic{}, subs: map[int]*pubsub.Subscription{},
 				relays: map[int]pubsub.RelayCancelFunc{}, batches: map[int]*pubsub.MessageBatch{},
 				valGates: map[string]chan struct{}{}, valCount: map[string]int{}, nAfter: map[string]int{}}
-			r.play()
+			defer func() { pubsub.DiscoveryPollInitialDelay = 0 }()
+			if s.Fam != "" {
+				r.playFam()
+			} else {
+				r.play()
+			}
 		})
 	}()
 	for _, g := range allGoroutines() {
